@@ -2,6 +2,7 @@ package main
 
 import (
 	"fmt"
+	"go/token"
 	"go/types"
 	"sort"
 	"strings"
@@ -299,7 +300,7 @@ func (r *Roles) resolveConnFields(pkg *types.Package) {
 							if isMutex(s.Field(j).Type()) {
 								lk = s.Field(j)
 							}
-							if _, ok := s.Field(j).Type().(*types.Signature); ok {
+							if _, ok := s.Field(j).Type().Underlying().(*types.Signature); ok {
 								cb = s.Field(j)
 							}
 						}
@@ -423,9 +424,34 @@ func fieldOfField(f *ssa.Field) *types.Var {
 	return st.Field(f.Field)
 }
 
+// isFreshAlloc: v points to an object created right here: the allocation itself, or the value of
+// a local variable (possibly captured later) that is assigned exactly once, with an allocation made
+// in the same block (wc := new(T); wc.f = …).
 func isFreshAlloc(v ssa.Value) bool {
-	_, ok := v.(*ssa.Alloc)
-	return ok
+	if _, ok := v.(*ssa.Alloc); ok {
+		return true
+	}
+	ld, ok := v.(*ssa.UnOp)
+	if !ok || ld.Op != token.MUL {
+		return false
+	}
+	vr, ok := ld.X.(*ssa.Alloc)
+	if !ok {
+		return false
+	}
+	var only *ssa.Store
+	n := 0
+	for _, ref := range *vr.Referrers() {
+		if st, ok := ref.(*ssa.Store); ok && st.Addr == ssa.Value(vr) {
+			n++
+			only = st
+		}
+	}
+	if n != 1 {
+		return false
+	}
+	obj, ok := only.Val.(*ssa.Alloc)
+	return ok && obj.Block() == ld.Block() && obj.Parent() == ld.Parent()
 }
 
 func (r *Roles) resolveFunctions() {
@@ -538,7 +564,7 @@ func (r *Roles) resolveFunctions() {
 		for i := 0; i < sig.Params().Len(); i++ {
 			if n, ok := sig.Params().At(i).Type().(*types.Named); ok && n.Obj().Pkg() == p.Root.Pkg {
 				if s, ok := n.Underlying().(*types.Signature); ok && s.Params().Len() >= 3 {
-					if _, ok := s.Params().At(0).Type().(*types.Signature); ok {
+					if _, ok := s.Params().At(0).Type().Underlying().(*types.Signature); ok {
 						r.TErrFn = n
 					}
 				}
@@ -598,13 +624,23 @@ func (r *Roles) resolveClient(pkg *types.Package) {
 			continue
 		}
 		for i := 0; i < st.NumFields(); i++ {
-			sig, ok := st.Field(i).Type().(*types.Signature)
-			if !ok {
-				continue
+			// the request sender: a function-typed field taking a client request, or an interface with such a method
+			var sigs []*types.Signature
+			switch t := st.Field(i).Type().Underlying().(type) {
+			case *types.Signature:
+				sigs = append(sigs, t)
+			case *types.Interface:
+				for m := 0; m < t.NumMethods(); m++ {
+					if sg, ok := t.Method(m).Type().(*types.Signature); ok {
+						sigs = append(sigs, sg)
+					}
+				}
 			}
-			for j := 0; j < sig.Params().Len(); j++ {
-				if sig.Params().At(j).Type() == types.Type(r.TCreq) {
-					r.TClient, r.FDoReq = nt, st.Field(i)
+			for _, sig := range sigs {
+				for j := 0; j < sig.Params().Len(); j++ {
+					if sig.Params().At(j).Type() == types.Type(r.TCreq) {
+						r.TClient, r.FDoReq = nt, st.Field(i)
+					}
 				}
 			}
 		}
